@@ -431,7 +431,7 @@ def gen(ctx):
     import random
     cases = []
     q = ctx.quick()
-    for i in range(60 if q else 600):
+    for i in range(60 if q else 2400):
         seed = ctx.rng.randrange(10 ** 9)
         r = random.Random(seed)
         docs = [c10.gen_doc(r) for _ in range(r.randint(2, 4))]
